@@ -326,6 +326,23 @@ fn eval_equiv(c: &Check, v: &mut Verdict) {
     if c.prop == "C03" && c.case.level == 2 {
         jit_forms(c, v);
     }
+    if c.prop == "C01" && c.case.level > 3 {
+        // state invariant: the optimiser's result for any level above 3 is the level-3 result
+        fn ir<C: hpbf::CellType>(code: &str, level: u32) -> Option<String> {
+            std::panic::catch_unwind(|| hpbf::ir::Program::<C>::parse(code).ok().map(|p| format!("{:?}", p.optimize(level)))).ok().flatten()
+        }
+        let (a, b) = match c.case.width {
+            8 => (ir::<u8>(&c.case.program, c.case.level), ir::<u8>(&c.case.program, 3)),
+            16 => (ir::<u16>(&c.case.program, c.case.level), ir::<u16>(&c.case.program, 3)),
+            32 => (ir::<u32>(&c.case.program, c.case.level), ir::<u32>(&c.case.program, 3)),
+            _ => (ir::<u64>(&c.case.program, c.case.level), ir::<u64>(&c.case.program, 3)),
+        };
+        v.bump("level_clamp_compared");
+        if a.is_some() && b.is_some() && a != b {
+            v.fail("level-above-3-differs", 0, format!("printed IR at level {} differs from the printed IR at level 3", c.case.level));
+            return;
+        }
+    }
     let slack = r.events.len() + 64;
     let strict = limited_is_in_scope(&c.prop);
     match r.status {
